@@ -180,7 +180,10 @@ def run_impl(inp, work):
 def _result(inp, f, grp, r, before, after, data_arr):
     name = inp['name'].strip().replace('-', '_')
     if r[0] == 'err':
-        harness_made = {k for k in after if k.startswith('Rpos_') or k.startswith('Rspec_')}
+        # ancillaries offered for reuse IN THIS GROUP were put there by the caller; copies of ancillaries that live
+        # in another file are made by the library and must not survive a rejected call
+        harness_made = {k for k in after if (k.startswith('Rpos_') and inp['reuse_pos'] == 'same') or
+                        (k.startswith('Rspec_') and inp['reuse_spec'] == 'same')}
         left = sorted(k for k in after if k not in before and k not in harness_made)
         changed = sorted(k for k in before if k in after and before[k] != after[k])
         return {'err': r[1], 'cls': r[2], 'left_behind': left, 'changed': changed}
